@@ -351,6 +351,14 @@ def run_case(case, ctx):
         break
     if ok and pos != len(ev):
       ok = False
+    if ok:
+      # the k-th energy and the k-th force are evaluated at the very same double
+      for b0 in range(0, len(ev), 2 * nr):
+        for i in range(nr):
+          if ev[b0 + i][2] != ev[b0 + nr + i][2]:
+            ctx.violation("trace", "point %d evaluated at two different separations: energy at %r, force at %r" % (i + 1, ev[b0 + i][2], ev[b0 + nr + i][2]), what="trace", mech="energy_force_separations_differ")
+            break
+      ctx.count("energy_force_same_separation_rows", len(ev) // 2)
     if not ok:
       ctx.violation("trace", "evaluation trace is not ngrid energies then ngrid forces per potential (event %d of %d)" % (pos, len(ev)), what="trace")
     ctx.count("trace_events_checked", pos)
